@@ -38,14 +38,18 @@ def fmulVec {α : Type} [Zero α] [Add α] [Mul α] {m n : Nat} (A : Fin m → F
     (x : Fin n → α) : Fin m → α :=
   fun i => fsum n fun j => A i j * x j
 
-/-- evaluate a vector once and keep the values (identity as a function: `memo_eq`) -/
-def memo {α : Type} {n : Nat} (f : Fin n → α) : Fin n → α :=
-  let arr := Array.ofFn f
-  fun i => arr[i.1]'(by rw [Array.size_ofFn]; exact i.2)
+/-- a vector evaluated once and kept as an array … -/
+def tab {α : Type} {n : Nat} (f : Fin n → α) : { a : Array α // a.size = n } :=
+  ⟨Array.ofFn f, Array.size_ofFn⟩
 
-theorem memo_eq {α : Type} {n : Nat} (f : Fin n → α) : memo f = f := by
+/-- … and read back.  `look (tab f)` is `f` (`look_tab`); two functions rather than one because a
+compiled one-function version applied to an index would re-evaluate the whole table at every call. -/
+def look {α : Type} {n : Nat} (a : { a : Array α // a.size = n }) (i : Fin n) : α :=
+  a.1[i.1]'(by rw [a.2]; exact i.2)
+
+theorem look_tab {α : Type} {n : Nat} (f : Fin n → α) : look (tab f) = f := by
   funext i
-  simp [memo]
+  simp [look, tab]
 
 /-! ## the index partition -/
 
@@ -92,16 +96,16 @@ def cbtfCol {α : Type} [Zero α] [Add α] [Sub α] [Mul α] {n r nq : Nat}
     (M B K : Fin n → Fin n → α) (bpos : Fin r → Fin n) (qpos : Fin nq → Fin n)
     (loc : Fin n → Fin r ⊕ Fin nq) (solveQ : FreqSc α → (Fin nq → α) → (Fin nq → α))
     (sc : FreqSc α) (a : Fin r → α) : CbtfOut α r n :=
-  let dq := memo (solveQ sc (memo (cbtfRhs M B bpos qpos sc a)))
-  let displ : Fin n → α := memo fun i =>
+  let dq := look (tab (solveQ sc (look (tab (cbtfRhs M B bpos qpos sc a)))))
+  let displ : Fin n → α := look (tab fun i =>
     match loc i with
     | .inl l => sc.c2 * a l
-    | .inr k => dq k
-  let veloc : Fin n → α := memo fun i => sc.s * displ i
-  let accel : Fin n → α := memo fun i =>
+    | .inr k => dq k)
+  let veloc : Fin n → α := look (tab fun i => sc.s * displ i)
+  let accel : Fin n → α := look (tab fun i =>
     match loc i with
     | .inl l => a l
-    | .inr k => sc.s2 * dq k
+    | .inr k => sc.s2 * dq k)
   { frc := fun l => fsum n (fun j => M (bpos l) j * accel j) + fsum n (fun j => B (bpos l) j * veloc j)
       + fsum r (fun l' => K (bpos l) (bpos l') * displ (bpos l'))
     a := accel, d := displ, v := veloc }
@@ -111,8 +115,8 @@ order here (they are in model order in the other branch; `frc` is in b-set order
 def cbtfColE {α : Type} [Zero α] [Add α] [Mul α] {n r : Nat}
     (M B K : Fin n → Fin n → α) (bpos : Fin r → Fin n) (sc : FreqSc α) (a : Fin r → α) :
     CbtfOut α r r :=
-  let displ : Fin r → α := memo fun l => sc.c2 * a l
-  let veloc : Fin r → α := memo fun l => sc.s * displ l
+  let displ : Fin r → α := look (tab fun l => sc.c2 * a l)
+  let veloc : Fin r → α := look (tab fun l => sc.s * displ l)
   { frc := fun l => fsum r (fun l' => M (bpos l) (bpos l') * a l')
       + fsum r (fun l' => B (bpos l) (bpos l') * veloc l')
       + fsum r (fun l' => K (bpos l) (bpos l') * displ l')
